@@ -172,7 +172,11 @@ fn main() {
             let prop = find_prop(&args[2]);
             let tier = tier_of(&args[3]);
             for (i, u) in prop.units(tier).iter().enumerate() {
-                println!("{i}\t{}\t{}\t{:?}", u.key, u.cfg.label(), explore::shorten(&u.text, 100));
+                if std::env::var("VERIF_UNITS_FULL").is_ok() {
+                    println!("{i}\t{}\t{}\t{}", u.key, u.cfg.label(), serde_json::to_string(&u.text).unwrap());
+                } else {
+                    println!("{i}\t{}\t{}\t{:?}", u.key, u.cfg.label(), explore::shorten(&u.text, 100));
+                }
             }
         }
         "replay" => {
